@@ -19,6 +19,7 @@ import (
 )
 
 type c02ReqOpt struct {
+	upgrade bool // send "Upgrade: websocket" (the timeout handler steps aside for such requests)
 	ctx     context.Context
 	body    []byte
 	hasBody bool
@@ -64,10 +65,28 @@ func (p *c02Pending) wait(d time.Duration) bool {
 
 // c02ScFast: one non-blocking handler on a route whose timeout cannot fire.
 func c02ScFast(c *c02Ctx, e *c02Env, do c02Doer, rt *c02Route, sc *c02Script, class string) bool {
+	return c02ScFastOpt(c, e, do, rt, sc, class, c02ReqOpt{})
+}
+
+func c02ScFastOpt(c *c02Ctx, e *c02Env, do c02Doer, rt *c02Route, sc *c02Script, class string, opt c02ReqOpt) bool {
 	c02TaintFor(rt, sc)
 	run := e.newRun(rt, sc)
 	defer e.forget(run)
-	resp, _ := do(run, c02ReqOpt{})
+	resp, _ := do(run, opt)
+	defer func() {
+		for _, ev := range run.events() {
+			switch {
+			case ev.Op == "flush" && ev.N == 1:
+				c.m.Count("writer_flush_called", 1)
+			case ev.Op == "push" && ev.N == 1:
+				c.m.Count("writer_push_called", 1)
+			case ev.Op == "hijack" && ev.N == 1:
+				c.m.Count("writer_hijack_took_connection", 1)
+			case ev.Op == "hijack":
+				c.m.Count("writer_hijack_unsupported", 1)
+			}
+		}
+	}()
 	mo := sc.model(run.id, len(sc.Steps))
 	if mo.status < 500 && rt.Class != "spare" && c02IsBareReject(run, resp) && atomic.LoadInt64(&rt.fails) > 0 {
 		// possibly the route's breaker: repeat the check on a spare route whose breaker cannot be open
@@ -76,10 +95,11 @@ func c02ScFast(c *c02Ctx, e *c02Env, do c02Doer, rt *c02Route, sc *c02Script, cl
 		sp := e.routes["spare"][int(atomic.AddInt64(&e.nextID, 1))%len(e.routes["spare"])]
 		sp.spareMu.Lock()
 		defer sp.spareMu.Unlock()
-		return c02ScFast(c, e, do, sp, sc, class)
+		return c02ScFastOpt(c, e, do, sp, sc, class, opt)
 	}
 	ok := c02JudgeFast(c, run, resp, class)
-	c.m.Case(fmt.Sprintf("%s|%s|st=%d|h=%d|w=%d|big=%v", c.obs, class, mo.status, len(mo.headers), mo.writes, len(mo.body) > 4096), ok)
+	c.m.Case(fmt.Sprintf("%s|%s|st=%d|h=%d|w=%d|big=%v|fl=%v|pu=%v|hj=%v", c.obs, class, mo.status, len(mo.headers), mo.writes, len(mo.body) > 4096,
+		sc.index("flush") >= 0, sc.index("push") >= 0, sc.index("hijack") >= 0), ok)
 	if ok && mo.writes > 1 && len(mo.headers) > 0 && class == "fast" && c.obs == "server" {
 		c.sampleOnce(class, map[string]any{"route": rt.Path, "script": sc, "client_saw": resp.String()})
 	}
@@ -413,6 +433,90 @@ func c02ScMaxConns(c *c02Ctx, e *c02Env, do c02Doer, rt *c02Route, n, k int, r *
 	if n > 1 || c.obs == "server" {
 		c.sampleOnce(class, map[string]any{"route": rt.Path, "max_conns": n, "parked": n, "excess_rejected_503": k, "max_inside_observed": atomic.LoadInt64(&rt.maxInside)})
 	}
+	return true
+}
+
+// c02ScUnlimited: MaxConns <= 0 means no limit: many handlers parked inside one
+// route at once, nobody is rejected.
+func c02ScUnlimited(c *c02Ctx, e *c02Env, do c02Doer, rt *c02Route, n int, r *rand.Rand) bool {
+	class := "maxconns-unlimited"
+	var runs []*c02Run
+	var pend []*c02Pending
+	defer func() {
+		for _, run := range runs {
+			run.release()
+			e.forget(run)
+		}
+	}()
+	for i := 0; i < n; i++ {
+		run := e.newRun(rt, c02GenPark(r))
+		runs = append(runs, run)
+		pend = append(pend, c02Go(do, run, c02ReqOpt{}))
+	}
+	for i, run := range runs {
+		select {
+		case <-run.parkedCh:
+		case <-pend[i].ch:
+			c.violate(class+":rejected", run, pend[i].resp, "MaxConns=%d (no limit): request %d of %d concurrent ones was answered without its handler reaching the park step", e.cfg.MaxConns, i+1, n)
+			return false
+		case <-time.After(c02Watchdog):
+			c.m.Inconclusive("maxconns-unlimited: handler %d/%d did not park", i+1, n)
+			return false
+		}
+	}
+	c.m.Max("unlimited_max_inside", atomic.LoadInt64(&rt.inside))
+	for _, run := range runs {
+		run.release()
+	}
+	for i, run := range runs {
+		if !pend[i].wait(c02Watchdog) {
+			c.m.Inconclusive("maxconns-unlimited: no response for %s", run.id)
+			return false
+		}
+		if !c02JudgeFast(c, run, pend[i].resp, class) {
+			return false
+		}
+	}
+	c.m.Case(fmt.Sprintf("%s|maxconns-unlimited|cfg=%d|n=%d", c.obs, e.cfg.MaxConns, n), true)
+	return true
+}
+
+// c02ScPanicLenient: for user-composed chains (WithChain) where the recover
+// middleware sits outside the timeout handler: the panic travels through
+// timeoutHandler's panic channel. The client must get 500 (the buffered output is
+// dropped) or the committed status, never nothing, and the process survives.
+func c02ScPanicLenient(c *c02Ctx, e *c02Env, do c02Doer, rt *c02Route, sc *c02Script, r *rand.Rand) bool {
+	class := "customchain-" + sc.Kind
+	c02Taint(rt)
+	run := e.newRun(rt, sc)
+	defer e.forget(run)
+	p := c02Go(do, run, c02ReqOpt{})
+	if !p.wait(c02Watchdog) {
+		c.m.Inconclusive("%s: no response within the watchdog", class)
+		return false
+	}
+	resp := p.resp
+	if c02Tolerated(c, run, resp) {
+		return false
+	}
+	at := sc.index("panic")
+	mo := sc.model(run.id, at)
+	kind := sc.Steps[at].V
+	switch {
+	case resp.Err != "":
+		c.violate(class+":no-response:"+kind, run, resp, "handler panicked (%q value) behind Recover→Timeout and the client got nothing: %s", kind, resp.Err)
+		return false
+	case resp.Status == http.StatusInternalServerError && len(resp.Body) == 0:
+	case mo.committed && resp.Status == mo.status && len(resp.Body) <= len(mo.body) && string(resp.Body) == string(mo.body[:len(resp.Body)]):
+	default:
+		c.violate(class+":wrong-response", run, resp, "handler panicked (%q value, committed=%v): want 500 with empty body (or the committed status %d with a prefix of its body)", kind, mo.committed, mo.status)
+		return false
+	}
+	c.m.Count("customchain_panic_answered", 1)
+	if !c02ScFast(c, e, do, rt, c02GenFast(r, false), "customchain-after-panic") {
+		return false
+	}
+	c.m.Case(fmt.Sprintf("%s|%s|val=%s|committed=%v", c.obs, class, kind, mo.committed), true)
 	return true
 }
 
